@@ -43,6 +43,8 @@ def run(sc, tier, seed):
     ]
     # the model runs are independent: run them side by side with the drivers (2 at a time, 6 workers each)
     pool = concurrent.futures.ThreadPoolExecutor(max_workers=2)
+    if os.environ.get("VERIF_C12_SKIP_MODELS"):
+        models = models[:1]   # binding demonstrations on seeded changes: the design-level runs do not depend on the tree
     futs = [(cfg, pool.submit(V.model_check, sc, SPEC, mod, cfg, 6, 2400)) for mod, cfg in models]
 
     # ---- CircularQueue: exported, driven directly ----
